@@ -69,7 +69,7 @@ def dumpState (s : St) : String :=
   let temps := (List.range (s.w.nfiles - s.nsrc)).filterMap fun k =>
     let f := s.w.files (s.nsrc + k)
     if f.nlink > 0 then some s!"{k}@{f.dir}" else none
-  let fds := (List.range s.w.nfiles).foldl (fun a k => a + (s.w.files k).nfd) 0
+  let fds : Int := (List.range s.w.nfiles).foldl (fun a k => a + (s.w.files k).nfd) 0
   dumpCq s.w 0 s.q0 ++ dumpCq s.w 1 s.q1 ++ " t:" ++ (if temps.isEmpty then "-" else ",".intercalate temps)
     ++ s!" fd:{fds}"
 
@@ -177,6 +177,7 @@ def runOps (s : St) (ops : List String) : String :=
   let (w, q0) := reset s.w s.q0
   let (w, q1) := reset w s.q1
   out ++ "end" ++ dumpState { s with w := w, q0 := q0, q1 := q1 }
+    ++ s!" ws:{w.wsched.length} ms:{w.msched.length}"
 
 end CqD
 
